@@ -77,6 +77,23 @@ def run(facts, rep, ctx):
     sort_spec_rule(facts, rep, R2, ser)
     phase_rule(facts, rep, R3, R5, ser)
     intern_rule(facts, rep, R4, ser)
+    # header totals and the string-pointer origin are computed from the bytes actually written (layout arithmetic
+    # shared with C01-R01.1: the image is canonical only if its own offsets agree with its sections)
+    R8 = rep.rule("R02.8", "text origin / header totals are taken from the sections as they are written", floor=1)
+    try:
+        import c01
+        from common import Report as _Rep
+        sub1 = _Rep("C01")
+        c01.run(facts, sub1, ctx)
+        mine = [v for v in sub1.violations if v["rule"] == "R01.1"]
+        for v in mine:
+            rep.violation(R8, v["fn"], v["key"].split("|", 2)[-1], v["msg"], v["where"])
+        if not mine and sub1.rules.get("R01.1", {}).get("ok"):
+            rep.ok(R8, {"layout": "text origin over the written sections (C01-R01.1 holds)"})
+        elif not mine:
+            rep.inconc(R8, "layout arithmetic of serialize not decided (see C01-R01.1)")
+    except Exception as e_:
+        rep.inconc(R8, "layout arithmetic not evaluated: %s" % e_)
     # parse -> re-serialize reproduces a canonical file only if the parser sorts every table entry into the kind the
     # writer emitted it as: an internal pointer may point anywhere in [0, data size], a string pointer beyond it
     R7 = rep.rule("R02.7", "the parser takes a pointer-table entry for a string pointer exactly when its value exceeds the data size", floor=1)
